@@ -30,7 +30,8 @@ func runC02(t *testing.T, hc HistoryCase) (*h.Violation, h.Info) {
 	}
 	tr := dbx.NewTracker()
 	su := dbx.Super()
-	tgt := dbx.DBTarget{D: d}
+	keep := &dbx.Retained{}
+	tgt := dbx.DBTarget{D: d, Keep: keep}
 	classes := make([]model.Class, 0, len(hc.Ops))
 	finish := func(v *h.Violation) (*h.Violation, h.Info) {
 		cs, nt := dbx.HistoryClasses(hc.Ops, classes)
@@ -52,6 +53,9 @@ func runC02(t *testing.T, hc HistoryCase) (*h.Violation, h.Info) {
 			if err != nil || !bytes.Equal(sv.Value, op.Val) {
 				return finish(h.V("put-immediately-retrievable", "step %d %s returned version %d, but get-version of it gives %v, %v (state before: %s)", i, op, got.Ver, sv, err, before))
 			}
+		}
+		if msg := keep.Unchanged(); msg != "" {
+			return finish(h.V("returned-results-are-private-copies", "step %d %s: %s", i, op, msg))
 		}
 		dump, err := dbx.Dump(d)
 		if err != nil {
